@@ -23,6 +23,16 @@ TEXT = {
              "plus witness theorems of the three repaired defects. Tie: regenerated facts (error propagation, regex wrapping, loop shape, "
              "position before dispatch) + differential runs of ParseFirewallRules and handleMessageData with literal and regex rules.",
         note=BASE_NOTE + "Go regexp trusted for full syntax; the correspondence uses a regex subset rendered from ASTs."),
+    "C01": dict(
+        text="Algorithm layer at full strength: lc_correct_every_schedule (labels = least walk weights for every graph and every pop "
+             "order of the label-correcting loop), nexthop_valid, table_has_reachable / table_drops_unreachable, hop_decreases_distance, "
+             "walk_loop_free; silent_link_expires / live_link_kept for connection aging; protocol layer flood_round_truth_partial "
+             "(one flooding round from a quiescent state: every node of the component holds the origin's true adjacency, for every "
+             "interleaving and bag delivery; simplified setting, named partial). Tie: regenerated facts (relax test, re-enqueue, "
+             "prev walk, aging order) + differential runs of updateRoutingTable on random graphs (costs equal, each hop on a least-cost "
+             "path), of handleRoutingUpdate histories and of protoReader.",
+        note=BASE_NOTE + "Not proved: termination of the label-correcting loop; the protocol theorem for epochs/notices/link events; the "
+             "real-time bound. Float costs modelled as naturals."),
     "C06": dict(
         text="Theorems replay_is_noop, stale_is_noop, no_self_accept / self_origin_never_accepted, relay_excludes_receiver, "
              "info_monotone, relay_at_most_once (induction over arbitrary histories), flood_terminates_bound over the executable "
